@@ -3,8 +3,12 @@
 # check (patched scratch worktree, SNT_SRC) and print one line per seed.  A patch that no
 # longer applies to /repo HEAD (a later repair touched the same lines) is tried on the
 # commit it was written for (meta.json: base_commit).
+#   verify_seeds.sh [k n]     only the seeds whose index modulo n is k (for parallel streams;
+#                             combine with WORKERS=<w> CAP=<seconds>)
 cd /verif
-for d in seeded/*/; do
+k=${1:-0}; n=${2:-1}; i=0
+for d in $(ls -d seeded/*/ | sort -V); do
+  i=$((i+1)); [ $((i % n)) -eq "$k" ] || continue
   id=$(basename "$d"); p=${id%-*}
   base=HEAD
   out=$(BASE=$base tools/try_seed.sh "$id" "/verif/$d/patch.diff" "/verif/$d/demo.py" "$p" 2>&1)
